@@ -47,6 +47,16 @@ func isAstIface(t types.Type) bool {
 	return isI
 }
 
+func isAstIfaceSlice(t types.Type) bool {
+	s, ok := t.Underlying().(*types.Slice)
+	return ok && isAstIface(s.Elem())
+}
+
+func isAstNodeSlice(t types.Type) bool {
+	s, ok := t.Underlying().(*types.Slice)
+	return ok && (isAstIface(s.Elem()) || isAstPtr(s.Elem()))
+}
+
 func isRepoStructPtr(t types.Type) bool {
 	p, ok := t.Underlying().(*types.Pointer)
 	if !ok {
@@ -87,11 +97,27 @@ func sweepRequires(fn *ssa.Function) []string {
 			}
 		case isAstPtr(t) || isRepoStructPtr(t):
 			rs = append(rs, name+" != nil")
+			if isAstPtr(t) {
+				rs = append(rs, "tnode("+name+")")
+			}
 			if strings.HasSuffix(t.String(), "linter.CheckerContext") {
 				rs = append(rs, fmt.Sprintf("%s.Context != nil && %s.TypesInfo != nil", name, name))
 			}
 		case isAstIface(t) && walkerEntry[fn.Name()]:
-			rs = append(rs, "!isNilIface("+name+")")
+			rs = append(rs, "!isNilIface("+name+")", "tnode("+name+")")
+		case isAstIface(t):
+			// assume/guarantee: a syntax-node argument is nil or a node of the analysed tree (call sites prove it)
+			rs = append(rs, "isNilIface("+name+") || tnode("+name+")")
+		case walkerEntry[fn.Name()] && isAstIfaceSlice(t):
+			// the statement / expression list handed to a walker is a list of the analysed tree
+			rs = append(rs, fmt.Sprintf("forall i int :: (0 <= i && i < len(%s)) ==> (!isNilIface(%s[i]) && tnode(%s[i]))", name, name, name), "astlist("+name+")")
+		case isAstNodeSlice(t):
+			// assume/guarantee: a list of syntax nodes passed between functions of the checkers is a list of the analysed tree
+			if isAstIfaceSlice(t) {
+				rs = append(rs, fmt.Sprintf("forall i int :: (0 <= i && i < len(%s)) ==> (!isNilIface(%s[i]) && tnode(%s[i]))", name, name, name), "len("+name+") == 0 || astlist("+name+")")
+			} else {
+				rs = append(rs, fmt.Sprintf("forall i int :: (0 <= i && i < len(%s)) ==> tnode(%s[i])", name, name), "len("+name+") == 0 || astlist("+name+")")
+			}
 		case strings.HasSuffix(t.String(), "*go/types.Info"):
 			rs = append(rs, name+" != nil")
 		}
@@ -129,7 +155,7 @@ func (e *Engine) sweepContract(fn *ssa.Function, prop string) *Contract {
 				reqs = append(reqs, fmt.Sprintf("%s.Context != nil && %s.TypesInfo != nil", name, name))
 			}
 		case isAstPtr(et):
-			reqs = append(reqs, name+" != nil")
+			reqs = append(reqs, name+" != nil", "tnode("+name+")")
 		}
 	}
 	for _, r := range reqs {
